@@ -89,14 +89,14 @@ CLAIMS = {
         '6/C13',
     ),
     'C14': (
-        'Lean 4 theorems for every injective renaming of path components with well-formed images (GoodRen; advRen makes siblings string prefixes of one another): raw_test_is_prefix (every raw-string test of the code equals the component-level test once the boundary is added; raw_prefix_counterexample without it), desc_ren, verdict_ren / violating_ren (specification), graph_ren, model_verdict_ren_all / model_report_ren / model_outcome_ren (model outcome of every module rule), layerOf_ren, layer_verdict_ren, layer_report_ren, diagram_verdict_ren / diagram_spec_ren, labels_ren / label_ren, isInternal_ren, text_ren_items / text_ren (the message text: lines permuted and re-sorted). Tie to /repo on every run: correspondence run (real code vs compiled Lean model vs Lean specification on generated inputs, exhaustive where stated in the evidence): every rule / layer / label / scan case evaluated under a collision-free and an adversarial renaming (prefix siblings, suffix-like names, letter case), parent-relative imports in renamed sub-scans, diagram rules over prefix-sibling components.',
-        "Regex specifications are outside the property's quantifier (mt is not renamed). text_ren needs quote-free names (text_ren_needs_quoteFree). Scan-level invariance is established by the correspondence run and C04's naming theorems. Trusted: Lean kernel, harness/driver.",
+        'Lean 4 theorems for every injective renaming of path components with well-formed images (GoodRen; advRen makes siblings string prefixes of one another): raw_test_is_prefix (every raw-string test of the code equals the component-level test once the boundary is added; raw_prefix_counterexample without it), desc_ren, verdict_ren / violating_ren (specification), graph_ren, model_verdict_ren_all / model_report_ren / model_outcome_ren (model outcome of every module rule), layerOf_ren, layer_verdict_ren, layer_report_ren, diagram_verdict_ren / diagram_spec_ren, labels_ren / label_ren, isInternal_ren, text_ren_items / text_ren (the message text: lines permuted and re-sorted); at SCAN level (renaming directories and files on disk, import statements renamed along): scan_arch_ren, scan_ren, scan_error_ren, scan_verdict_ren, scan_report_ren, scan_labels_ren, scan_ren_ext, with the forced hypotheses shown necessary (scan_ren_needs_injective / _dotfree / _transport). Tie to /repo on every run: correspondence run (real code vs compiled Lean model vs Lean specification on generated inputs, exhaustive where stated in the evidence): every rule / layer / label / scan case evaluated under a collision-free and an adversarial renaming (prefix siblings, suffix-like names, letter case), parent-relative imports in renamed sub-scans, diagram rules over prefix-sibling components.',
+        "Regex specifications are outside the property's quantifier (mt is not renamed). text_ren needs quote-free names (text_ren_needs_quoteFree). Scan level: externals with exclusion patterns or under a level limit, and layer / diagram corollaries, are not carried by a theorem. Trusted: Lean kernel, harness/driver.",
         TECH,
         '6/C14',
     ),
     'C15': (
-        'The part that is logic is proved, the part that lives in the interpreter is exercised. Lean 4 theorems: report_reapply / reapply (a rule object applied before behaves like a fresh one, text included; convertAliases_idem), report_congr / report_perm_* (verdict and literal message lines invariant under permuting subjects, objects, modules, imports, layers, layer-rule filters), scan_graph_perm / scan_report_perm / perm_dir_entries (directory enumeration order), perm_patterns, perm_layers (no hypothesis since the repair of F-C15a), run_report_perm / run_layer_report_perm (through the builders), applyAll_perm, diagram_lines_perm / diagram_text_perm / diagram_message_lines_perm (diagram line order; diagram_message_order_counterexample: only the multiset of lines is invariant). Tie to /repo on every run: correspondence run (real code vs compiled Lean model vs Lean specification on generated inputs, exhaustive where stated in the evidence): histories of up to 40 evaluations on a shared evaluable with snapshots before/after, re-used rule objects across architectures, permutations of every list-valued argument, shuffled Path.iterdir / os.listdir / os.scandir (also under a level limit), 8 interpreters with PYTHONHASHSEED 0..7.',
-        "Partial by nature: 'leaves the architecture unchanged' and the hash seed are outside a pure model and are observed by the snapshot and 8-seed runs only. Trusted: Lean kernel, harness/driver.",
+        'The part that is logic is proved, the part that lives in the interpreter is exercised. Lean 4 theorems: the history machine of Bridge/History.lean (any number of rule, layer-rule and diagram-rule objects applied to any number of architectures in any interleaving): history_archs_unchanged, history_outcome_fresh (the outcome of an application after ANY history equals its outcome in the initial world, message text included), history_perm, history_final; report_reapply / reapply (a rule object applied before behaves like a fresh one, text included; convertAliases_idem), report_congr / report_perm_* (verdict and literal message lines invariant under permuting subjects, objects, modules, imports, layers, layer-rule filters), scan_graph_perm / scan_report_perm / perm_dir_entries (directory enumeration order), perm_patterns, perm_layers (no hypothesis since the repair of F-C15a), run_report_perm / run_layer_report_perm (through the builders), applyAll_perm, diagram_lines_perm / diagram_text_perm / diagram_message_lines_perm (diagram line order; diagram_message_order_counterexample: only the multiset of lines is invariant). Tie to /repo on every run: correspondence run (real code vs compiled Lean model vs Lean specification on generated inputs, exhaustive where stated in the evidence): histories of up to 40 evaluations on a shared evaluable with snapshots before/after, re-used rule objects across architectures, permutations of every list-valued argument, shuffled Path.iterdir / os.listdir / os.scandir (also under a level limit), 8 interpreters with PYTHONHASHSEED 0..7.',
+        "Partial by nature: mutation of the Python objects behind the model's values (frozen networkx graph, caches) and the hash seed are outside a pure model and are observed by the snapshot and 8-seed runs only; builder calls interleaved with applications on one object are not part of the history machine. Trusted: Lean kernel, harness/driver.",
         TECH,
         '6/C15',
     ),
